@@ -435,6 +435,9 @@ func buildServer(c *cfgT, reg *registry, extra ...wire.OptionFn) (*wire.Server, 
 				return ctx, true, nil
 			case "reject":
 				return ctx, false, nil
+			case "failtrue":
+				// a validator that fails although its boolean says yes has not accepted
+				return ctx, true, errors.New("validator failure")
 			default:
 				return ctx, false, errors.New("validator failure")
 			}
@@ -649,9 +652,31 @@ func runMulti(cases []*caseT, schedule []int, free bool) []*obsT {
 		conns[i], recs[i] = newSession(c, reg)
 		obs[i] = &obsT{}
 		rests[i] = c.raw
-		serveAsync(srv, conns[i], obs[i])
+	}
+	// a connection is accepted when its first bytes are due and hung up right after its last
+	// chunk: connections of one group overlap, follow each other, or both, as the schedule says
+	started := make([]bool, n)
+	ended := make([]bool, n)
+	start := func(i int) {
+		if !started[i] {
+			started[i] = true
+			serveAsync(srv, conns[i], obs[i])
+		}
+	}
+	finish := func(i int) {
+		if ended[i] {
+			return
+		}
+		ended[i] = true
+		conns[i].setEOF()
+		if !obs[i].hang && !conns[i].waitFinished(idleTimeout) {
+			obs[i].hang = true
+		}
 	}
 	if free {
+		for i := range cases {
+			start(i)
+		}
 		var wg sync.WaitGroup
 		for i := range cases {
 			wg.Add(1)
@@ -677,7 +702,11 @@ func runMulti(cases []*caseT, schedule []int, free bool) []*obsT {
 	} else {
 		for _, i := range schedule {
 			c := cases[i]
-			if next[i] >= len(c.chunks) || obs[i].hang || conns[i].over() {
+			if next[i] >= len(c.chunks) || obs[i].hang || ended[i] {
+				continue
+			}
+			start(i)
+			if conns[i].over() {
 				continue
 			}
 			k := c.chunks[next[i]]
@@ -695,11 +724,15 @@ func runMulti(cases []*caseT, schedule []int, free bool) []*obsT {
 				continue
 			}
 			obs[i].steps = append(obs[i].steps, conns[i].outLen())
+			if next[i] >= len(c.chunks) {
+				finish(i)
+			}
 		}
 		for i := range cases {
-			if obs[i].hang {
+			if obs[i].hang || ended[i] {
 				continue
 			}
+			start(i)
 			// whatever the schedule did not deliver is delivered now, still one chunk at a time
 			c := cases[i]
 			for next[i] < len(c.chunks) && !conns[i].over() {
@@ -719,10 +752,7 @@ func runMulti(cases []*caseT, schedule []int, free bool) []*obsT {
 				}
 				obs[i].steps = append(obs[i].steps, conns[i].outLen())
 			}
-			conns[i].setEOF()
-			if !obs[i].hang && !conns[i].waitFinished(idleTimeout) {
-				obs[i].hang = true
-			}
+			finish(i)
 		}
 	}
 	for i := range cases {
